@@ -571,6 +571,23 @@ func (i *Interpreter) ExecuteRoute(route *Route, request *Request) (*Response, e
 	// Always add request body to environment (even if nil)
 	// This ensures 'input' variable is always available in routes
 	inputValue := request.Body
+	// A declared input type with required fields cannot be satisfied by an
+	// absent body or by a body that is not a JSON object.
+	if route.InputType != nil {
+		if namedType, ok := route.InputType.(NamedType); ok {
+			if typeDef, exists := i.typeDefs[namedType.Name]; exists && RequiresObject(typeDef) {
+				if _, isObject := inputValue.(map[string]interface{}); !isObject {
+					err := fmt.Errorf("request body must be a JSON object of type %s", namedType.Name)
+					return &Response{
+						StatusCode: 400,
+						Body: map[string]interface{}{
+							"error": fmt.Sprintf("input validation failed: %v", err),
+						},
+					}, err
+				}
+			}
+		}
+	}
 	if inputValue != nil {
 		// If route has an InputType declared, apply defaults and validate
 		if route.InputType != nil {
